@@ -431,9 +431,29 @@ func c18Db(c *c18Case, dir string, ml *mismatchLog) {
 	for i := 0; i < 20; i++ {
 		must(db.Put(fmt.Sprintf("const-%02d", i), fmt.Sprintf("constant-value-%02d", i)))
 	}
+	// keys that every goroutine overwrites with equal-length values made of one letter: a Get must return one of
+	// the values that were put, whole
+	for i := 0; i < 3; i++ {
+		must(db.Put(fmt.Sprintf("shared-%d", i), strings.Repeat("_", 24)))
+	}
 	parallel(c.Goroutines, ml, func(id int, r *rand.Rand) {
 		own := map[string]string{}
 		for i := 0; i < c.Calls; i++ {
+			if r.Intn(5) == 0 {
+				k := fmt.Sprintf("shared-%d", r.Intn(3))
+				if r.Intn(2) == 0 {
+					if err := db.Put(k, strings.Repeat(string(rune('a'+(id+i)%26)), 24)); err != nil {
+						ml.add("Put(%s): %v", k, err)
+					}
+				} else {
+					v, err := db.Get(k)
+					if err != nil || len(v) != 24 || strings.Count(v, v[:1]) != 24 {
+						ml.add("Get(%s) = (%q, %q): not one of the values that were ever put", k, v, errClass(err))
+					}
+				}
+				ml.did()
+				continue
+			}
 			switch x := r.Intn(10); {
 			case x < 3:
 				k := fmt.Sprintf("const-%02d", r.Intn(20))
